@@ -150,7 +150,7 @@ fn one_run(log: &mut EvLog, seed: u64, thorough: bool) {
     let ts: u8 = match rng.gen_range(0..5) { 0 => 0, 1 => 125, 2 => 1, _ => rng.gen_range(0..=125) };
     let hsa: u8 = if ts == 125 { 126 } else { rng.gen_range(ts + 1..=126) };
     let mut pb = fdl::ParametersBuilder::new(ts, baud);
-    pb.highest_station_address(hsa).slot_bits(slot).gap_wait_rotations(rng.gen_range(1..=4)).max_retry_limit(rng.gen_range(0..=3))
+    pb.highest_station_address(hsa).slot_bits(slot).gap_wait_rotations(rng.gen_range(1..=4)).max_retry_limit(rng.gen_range(1..=3))
         .token_rotation_bits([2_000u32, 20_000, 16_000_000][rng.gen_range(0..3)]);
     if rng.gen_bool(0.3) {
         pb.watchdog_timeout(profirust::time::Duration::from_millis(rng.gen_range(10..100_000)));
@@ -265,13 +265,13 @@ fn one_run(log: &mut EvLog, seed: u64, thorough: bool) {
         };
         polls += 1;
         if let Err((msg, loc)) = r {
-            log.push(json!({"ev":"Panic","st":ts,"t":now * TPU,"msg":msg,"loc":short_loc(&loc),"during":"poll","apps":apps,"step":step,
+            log.push(json!({"ev":"Panic","st":ts,"msg":msg,"loc":short_loc(&loc),"during":"poll","apps":apps,"step":step,
                             "rx_tail": phy.rx.iter().rev().take(40).rev().collect::<Vec<_>>(), "state": f.verif_view().state}));
             return;
         }
         states.insert(f.verif_view().state);
     }
-    log.push(json!({"ev":"End","t":now * TPU,"polls":polls,"rxbytes":rxbytes,"txs":phy.tx.len(),"reacted":reacted,"states":states.iter().collect::<Vec<_>>()}));
+    log.push(json!({"ev":"End","polls":polls,"rxbytes":rxbytes,"txs":phy.tx.len(),"reacted":reacted,"states":states.iter().collect::<Vec<_>>()}));
 }
 
 pub fn run(args: &Args) {
